@@ -551,6 +551,23 @@ class World(object):
                 if self.genkind == 'int':
                     ev['g'] = self.m.id_generator.peek() - 1
             return ev, 'none'
+        if name == 'LoadInto':
+            # a second loader that holds rows only populates the existing metamodel
+            rows = act[1]
+            ev.update({'rows': rows, 'g': -1})
+            rnd = random.Random(k)
+            before = set(id(x) for c in self.schema['classes'] for x in self.m.find_metaclass(c).storage)
+            loader = xtuml.ModelLoader()
+            for r in rows:
+                loader.input(_sql.insert_statement(self.schema, r, rnd) + '\n')
+            try:
+                loader.populate(self.m)
+            finally:
+                for c in self.schema['classes']:
+                    self.h[c] += [x for x in self.m.find_metaclass(c).storage if id(x) not in before]
+                if self.genkind == 'int':
+                    ev['g'] = self.m.id_generator.peek() - 1
+            return ev, 'none'
         if name == 'NewUnknown':
             ev.update({'c': act[1]})
             self.m.new(act[1])
